@@ -36,6 +36,17 @@ def _unique_perms_reachability_twin(xs: list[int]) -> list[tuple[int, ...]]:
     return _listed(xs)
 
 
+def _unique_perms_reachability_twin_three_rearrangements(xs: list[int]) -> list[tuple[int, ...]]:
+    """
+    Reachability twin (deep): inputs with at least three distinct rearrangements are inside the precondition, i.e. the
+    claim "fewer than three entries" MUST be refuted.
+
+    pre: len(xs) <= 3 and all(0 <= x <= 2 for x in xs)
+    post: len(__return__) < 3
+    """
+    return _listed(xs)
+
+
 def _unique_perms_negative_control_wrong_count(xs: list[int]) -> list[tuple[int, ...]]:
     """
     Negative control (wrong property, real function): "as many entries as len(xs)!" is false as soon as a value
